@@ -1,6 +1,19 @@
 import Tahoe.Mutable.PublishLemmas
+import Tahoe.Mutable.PublishRunLemmas
 /-! C47 — a successful mutable publish is recoverable (property theorems; helper lemmas live in
     `Tahoe/Mutable/PublishLemmas.lean`). -/
+/-!
+## Coverage of the statement (properties.jsonl C47)
+
+| clause of the statement | theorem(s) |
+|---|---|
+| "reports success only if servers acknowledged storing the new version's shares for at least k distinct share numbers" | `success_implies_k_acked` (bookkeeping level: ≥ k share numbers with a proxy never dropped and only answered `wrote=True`), `success_implies_k_stored` (end to end: ≥ k distinct share numbers are *stored* on the servers, through proxy layer + callback chain + storage semantics, for every arrival order and failure pattern), `bookkeeping_sound` (`placed`, `bad_servers`, `goal`, `writers` after any answer sequence) |
+| "…and no unexpected version was encountered" | `success_implies_k_acked` (third conjunct), `refused_or_surprising_write_is_ucw` |
+| "It reports an error when fewer than k shares could be placed" | `fewer_than_k_fails`, `fewer_than_k_stored_fails` (end to end) |
+| quantifier: SDMF and MDMF, create and update | one model for both: both proxies send one request per share (`finish_publishing`); `update()` differs only in the initial goal (known shares only) — covered by the arbitrary initial `writers`; tied per format by correspondence (`pub`, `rpc`, `proxy` cases of harness/props/c47.py) |
+| quantifier: failing and slow servers, failures on any write, every response ordering | all theorems quantify over arbitrary arrival lists (`Rpc.lostBefore`, `lostAfter`, refused answers, any order); a hung server = no arrival: the publish never reports (hypothesis `hfired` is Twisted's `DeferredList` contract) |
+| every share number gets a home (`update_goal`), needed for "N shares" in C14 | `update_goal_covers`; which server is chosen (fewest shares first, permuted order, round robin; never a bad or non-permitted server): correspondence only (`goal` cases) |
+-/
 namespace Tahoe.C47
 open Tahoe.Mutable Tahoe.Mutable.Pub
 
@@ -76,5 +89,100 @@ theorem refused_or_surprising_write_is_ucw (p : Pub) (evs : List Event) (w : Wri
 
 example : run pEx [.answer ⟨1, 11⟩ true [(1, 3)], .answer ⟨2, 12⟩ false [(2, 9)], .answer ⟨0, 10⟩ true [(0, 3)]] =
     .uncoordinatedWrite := by decide
+
+/-! ### end to end: what the servers hold -/
+
+/-- 2-of-3; share 2's request fails before reaching the server, share 1's answer is lost after the write -/
+def arrEx : List (Writer × Rpc) :=
+  [(⟨1, 11⟩, .lostAfter true), (⟨2, 12⟩, .lostBefore), (⟨0, 10⟩, .answered true [(0, 3)])]
+def arrOk : List (Writer × Rpc) :=
+  [(⟨1, 11⟩, .answered true [(1, 3)]), (⟨2, 12⟩, .lostBefore), (⟨0, 10⟩, .answered true [(0, 3)])]
+
+/-- A publish that reports success has *stored* the new version under at least `k` distinct share numbers:
+    for every pattern of requests that fail before or after being executed, refused writes, and every
+    arrival order.  Goes through the write proxy (`proxyResult`: an answer and a failure are handed on
+    unchanged), `finish_publishing`'s callback chain (`chainEvent`: the failure of proxy `w` drops proxy `w`),
+    the bookkeeping (`step`) and `_push`'s count of distinct share numbers with a live proxy. -/
+theorem success_implies_k_stored (p : Pub) (arrivals : List (Writer × Rpc))
+    (hfired : ∀ w ∈ p.writers, ∃ r, (w, r) ∈ arrivals)
+    (h : runRpcs p arrivals = .success) :
+    ∃ ws : List Writer, p.k ≤ numShnums ws ∧
+      ∀ w ∈ ws, w ∈ p.writers ∧ (w.server, w.shnum) ∈ storedSlots arrivals := by
+  have hf : ∀ w ∈ p.writers, ∃ e ∈ eventsOf arrivals, e.writer = w := by
+    intro w hw
+    obtain ⟨r, hr⟩ := hfired w hw
+    exact ⟨chainEvent w r, (mem_eventsOf _ _).mpr ⟨w, r, hr, rfl⟩, chainEvent_writer w r⟩
+  obtain ⟨acked, hk, hall, _⟩ := success_implies_k_acked p (eventsOf arrivals) hf h
+  refine ⟨acked, hk, fun w hw => ?_⟩
+  obtain ⟨hmem, _, ⟨rd, hans⟩, _⟩ := hall w hw
+  obtain ⟨w', r, hin, hce⟩ := (mem_eventsOf _ _).mp hans
+  obtain ⟨rfl, hst⟩ := chainEvent_answer_true w w' r rd hce
+  exact ⟨hmem, mem_storedSlots _ _ _ hin hst⟩
+
+example : runRpcs pEx arrOk = .success ∧ storedSlots arrOk = [(11, 1), (10, 0)] ∧
+    (∀ w ∈ pEx.writers, ∃ r, (w, r) ∈ arrOk) := by
+  refine ⟨by decide, by decide, fun w hw => ?_⟩
+  simp only [pEx, List.mem_cons, List.not_mem_nil, or_false] at hw
+  rcases hw with rfl | rfl | rfl
+  · exact ⟨_, List.mem_cons_of_mem _ (List.mem_cons_of_mem _ List.mem_cons_self)⟩
+  · exact ⟨_, List.mem_cons_self⟩
+  · exact ⟨_, List.mem_cons_of_mem _ List.mem_cons_self⟩
+
+/-- Conversely: if the requests that were stored cover fewer than `k` distinct share numbers, the publish
+    does not report success (a lost answer counts against success even though the share is there). -/
+theorem fewer_than_k_stored_fails (p : Pub) (arrivals : List (Writer × Rpc))
+    (hfired : ∀ w ∈ p.writers, ∃ r, (w, r) ∈ arrivals)
+    (h : ∀ ws : List Writer, (∀ w ∈ ws, w ∈ p.writers ∧ (w.server, w.shnum) ∈ storedSlots arrivals) →
+      numShnums ws < p.k) :
+    runRpcs p arrivals ≠ .success := by
+  intro hs
+  obtain ⟨ws, hk, hall⟩ := success_implies_k_stored p arrivals hfired hs
+  have := h ws hall
+  omega
+
+/-- share 1 was stored but its answer was lost, share 2 never arrived: only one acknowledged share number -/
+example : runRpcs pEx arrEx = .notEnoughServers ∧ storedSlots arrEx = [(11, 1), (10, 0)] := by decide
+
+/-- The bookkeeping sets after any sequence of answers and failures: `writers` = the initial proxies minus
+    exactly those whose request failed; `goal` is untouched; `placed` gains only slots whose proxy was
+    answered `wrote=True` (hence stored); `bad_servers` gains only servers that refused a write. -/
+theorem bookkeeping_sound (p : Pub) (arrivals : List (Writer × Rpc)) :
+    let q := (eventsOf arrivals).foldl step p
+    q.writers = p.writers.filter (fun w => decide (Event.problem w ∉ eventsOf arrivals)) ∧
+    q.goal = p.goal ∧
+    (∀ x ∈ q.placed, x ∈ p.placed ∨ x ∈ storedSlots arrivals) ∧
+    (∀ s ∈ q.badServers, s ∈ p.badServers ∨ ∃ w rd, (w, Rpc.answered false rd) ∈ arrivals ∧ s = w.server) := by
+  refine ⟨foldl_writers _ _, foldl_goal _ _, fun x hx => ?_, fun s hs => ?_⟩
+  · rcases foldl_placed _ _ x hx with h | ⟨w, rd, hm, rfl⟩
+    · exact Or.inl h
+    · obtain ⟨w', r, hin, hce⟩ := (mem_eventsOf _ _).mp hm
+      obtain ⟨rfl, hst⟩ := chainEvent_answer_true w w' r rd hce
+      exact Or.inr (mem_storedSlots _ _ _ hin hst)
+  · rcases foldl_bad _ _ s hs with h | ⟨w, rd, hm, rfl⟩
+    · exact Or.inl h
+    · obtain ⟨w', r, hin, hce⟩ := (mem_eventsOf _ _).mp hm
+      right
+      cases r with
+      | answered wr rd' =>
+        simp only [chainEvent, proxyResult, Event.answer.injEq] at hce
+        obtain ⟨rfl, rfl, rfl⟩ := hce
+        exact ⟨w', rd', hin, rfl⟩
+      | lostBefore => simp [chainEvent, proxyResult] at hce
+      | lostAfter wr => simp [chainEvent, proxyResult] at hce
+
+example : ((eventsOf arrEx).foldl step pEx).writers = [⟨0, 10⟩] ∧
+    ((eventsOf arrEx).foldl step pEx).placed = [(10, 0)] := by decide
+
+/-- `update_goal`: when it does not raise, every share number below `total_shares` has a home in the new goal
+    (so a publish that keeps all its proxies stores all N share numbers — the "N distinct shares" of C14). -/
+theorem update_goal_covers (goal : List (Nat × Nat)) (bad : List Nat) (total : Nat) (full : List (Nat × Bool))
+    (g : List (Nat × Nat)) (h : updateGoal goal bad total full = some g) :
+    ∀ sh, sh < total → ∃ srv, (srv, sh) ∈ g :=
+  fun sh hsh => updateGoal_covers goal bad total full g h sh hsh
+
+/-- share 1 already lives on server 0; server 2 may not be uploaded to: shares 0, 2, 3 go to servers 1, 0, 1 -/
+example : updateGoal [(0, 1)] [] 4 [(0, true), (1, true), (2, false)] = some [(0, 1), (1, 0), (0, 2), (1, 3)] := by decide
+/-- no usable server: `NotEnoughServersError` -/
+example : updateGoal [] [0] 4 [(0, true)] = none := by decide
 
 end Tahoe.C47
